@@ -1,6 +1,7 @@
 package props
 
 import (
+	"fmt"
 	"go/constant"
 	"go/token"
 	"go/types"
@@ -250,6 +251,20 @@ func derivesFromNodeName(v ssa.Value, d int) bool {
 				return true
 			}
 		}
+		// a helper of the core package that returns a name
+		if h := x.Call.StaticCallee(); h != nil && h.Blocks != nil && h.Pkg != nil && strings.HasSuffix(h.Pkg.Pkg.Path(), pkgCore) {
+			if b, isB := x.Type().Underlying().(*types.Basic); isB && b.Info()&types.IsString != 0 {
+				found := false
+				an.Instrs(h, func(in ssa.Instruction) {
+					if ret, ok := in.(*ssa.Return); ok && len(ret.Results) == 1 && derivesFromNodeName(ret.Results[0], d+2) {
+						found = true
+					}
+				})
+				return found
+			}
+		}
+	case *ssa.Slice:
+		return derivesFromNodeName(x.X, d+1)
 	case *ssa.BinOp:
 		return derivesFromNodeName(x.X, d+1) || derivesFromNodeName(x.Y, d+1)
 	case *ssa.Phi:
@@ -729,6 +744,16 @@ func ruleMembersAll(c *an.Ctx, rule string) {
 						return ok1 && ok2 && nx.Obj().Name() == "TypeId" && ny.Obj().Name() == "TypeId"
 					})
 				}
+				// a member skipped because a member with the same (complete) type was already checked
+				memos := memoKeyFindings([]*ssa.Function{m}, false)
+				memoHit := func(from, to *ssa.BasicBlock) bool {
+					for _, mf := range memos {
+						if mf.covered && mf.hitFrom == from && mf.hitTo == to {
+							return true
+						}
+					}
+					return false
+				}
 				for _, sc := range hd.Succs {
 					if !body[sc] {
 						continue
@@ -738,7 +763,9 @@ func ruleMembersAll(c *an.Ctx, rule string) {
 					var w *an.Witness
 					if !conform(first) {
 						w = an.Query{Fn: m, After: first, Target: func(x ssa.Instruction) bool { return x == hd.Instrs[0] }, Barrier: conform,
-							BarrierEdge: func(from, to *ssa.BasicBlock) bool { return !body[to] || typeIdsEqual(from, to) }}.Find()
+							BarrierEdge: func(from, to *ssa.BasicBlock) bool {
+								return !body[to] || typeIdsEqual(from, to) || memoHit(from, to)
+							}}.Find()
 					}
 					c.Check(rule, "every-struct-member-is-checked@"+an.FnName(m), hd.Instrs[0].Pos(), w == nil,
 						"an iteration over a struct's members completes without applying the type relation to the member, recording a failure or finding the two members' types identical: that member is accepted unchecked (a struct with members of different array/map depth is accepted where every member must have the map's element type); "+c.WitnessString(w))
@@ -2257,4 +2284,1460 @@ func ruleK9(c *an.Ctx) {
 		})
 	}
 	c.Floor("K9", "memory measurements feeding UpdateFreeUsed", n, 1)
+}
+
+// ---------------------------------------------------------------------------
+// Round 8
+// ---------------------------------------------------------------------------
+
+// MK (several properties): a memo that lets a loop skip work is keyed by something that determines
+// that work.  Four independently written seeds introduced "already checked, skip" sets into a
+// checker's walk and keyed them too coarsely: member types by their base name (dimensions dropped),
+// callables by the alias of the call that reaches them, pipelines by their bare name across files.
+// The first element with a key decides for all later ones.
+// Shape: in a loop, `if _, ok := memo[K]; ok { continue }` (a comma-ok lookup whose true edge
+// reaches the next iteration without the calls that the false edge makes).  Let E be the loop
+// element.  K determines the skipped work if every access path E.p used by the arguments of the
+// skipped calls is covered by a path of K (K uses E.p or a prefix of it), or K is computed by a
+// call that receives E itself.  memoKeyFindings returns one finding per offending loop.
+type memoFinding struct {
+	fn      *ssa.Function
+	pos     token.Pos
+	key     string
+	missing string
+	covered bool
+	// the edge taken when the key is already in the set
+	hitFrom, hitTo *ssa.BasicBlock
+}
+
+func memoKeyFindings(fns []*ssa.Function, fnLevel bool) []memoFinding {
+	var out []memoFinding
+	for _, fn := range fns {
+		loops := naturalLoops(fn)
+		if fnLevel && len(fn.Blocks) > 0 {
+			// the function itself as one more region: its parameters are the elements (a recursive
+			// walk that remembers what it has visited)
+			all := map[*ssa.BasicBlock]bool{}
+			for _, b := range fn.Blocks {
+				all[b] = true
+			}
+			if loops == nil {
+				loops = map[*ssa.BasicBlock]map[*ssa.BasicBlock]bool{}
+			}
+			loops[nil] = all
+		}
+		for hd, body := range loops {
+			// the loop element: value of a range over a slice (load of IndexAddr by the counter) or map (Extract of Next)
+			var elems []ssa.Value
+			if hd == nil {
+				for _, p := range fn.Params {
+					elems = append(elems, p)
+				}
+			}
+			for b := range body {
+				if hd == nil {
+					break
+				}
+				for _, in := range b.Instrs {
+					switch x := in.(type) {
+					case *ssa.UnOp:
+						if ia, ok := x.X.(*ssa.IndexAddr); ok && x.Op == token.MUL {
+							if def, ok := ia.Index.(ssa.Instruction); ok && def.Block() == hd {
+								elems = append(elems, x)
+							}
+						}
+					case *ssa.Extract:
+						if nx, ok := x.Tuple.(*ssa.Next); ok && nx.Block() == hd && x.Index == 2 {
+							elems = append(elems, x)
+						}
+					}
+				}
+			}
+			if len(elems) == 0 {
+				continue
+			}
+			isElem := func(v ssa.Value) bool {
+				for _, e := range elems {
+					if e == v {
+						return true
+					}
+				}
+				return false
+			}
+			// paths relative to the element used by a value: "" for the element itself, ".Tname", ".Tname.Tname" ...
+			var pathsOf func(v ssa.Value, acc map[string]bool, d int, viaCall *bool)
+			pathsOf = func(v ssa.Value, acc map[string]bool, d int, viaCall *bool) {
+				if v == nil || d > 10 {
+					return
+				}
+				// an access path rooted at the element
+				cur := v
+				suffix := ""
+				for i := 0; i < 8; i++ {
+					if isElem(cur) {
+						acc[suffix] = true
+						return
+					}
+					switch x := cur.(type) {
+					case *ssa.UnOp:
+						if x.Op == token.MUL {
+							cur = x.X
+							continue
+						}
+					case *ssa.FieldAddr:
+						if st := derefStructT(x.X.Type()); st != nil {
+							suffix = "." + st.Field(x.Field).Name() + suffix
+							cur = x.X
+							continue
+						}
+					case *ssa.Field:
+						if st, ok := x.X.Type().Underlying().(*types.Struct); ok {
+							suffix = "." + st.Field(x.Field).Name() + suffix
+							cur = x.X
+							continue
+						}
+					case *ssa.TypeAssert:
+						cur = x.X
+						continue
+					case *ssa.Extract:
+						if ta, ok := x.Tuple.(*ssa.TypeAssert); ok && x.Index == 0 {
+							cur = ta.X
+							continue
+						}
+					case *ssa.ChangeInterface:
+						cur = x.X
+						continue
+					case *ssa.MakeInterface:
+						cur = x.X
+						continue
+					case *ssa.Call:
+						// an accessor method of the element (c.GetId()) names one of its attributes,
+						// like a field does - unlike a function that is handed the element itself
+						if x.Call.IsInvoke() && len(x.Call.Args) == 0 {
+							suffix = "." + x.Call.Method.Name() + "()" + suffix
+							cur = x.Call.Value
+							continue
+						}
+						if h := x.Call.StaticCallee(); h != nil && h.Signature.Recv() != nil && len(x.Call.Args) == 1 {
+							suffix = "." + h.Name() + "()" + suffix
+							cur = x.Call.Args[0]
+							continue
+						}
+					}
+					break
+				}
+				switch x := v.(type) {
+				case *ssa.Call:
+					for _, a := range x.Call.Args {
+						if isElem(an.Strip(a)) && viaCall != nil {
+							*viaCall = true
+						}
+						pathsOf(a, acc, d+1, viaCall)
+					}
+					if x.Call.IsInvoke() {
+						if isElem(an.Strip(x.Call.Value)) && viaCall != nil {
+							*viaCall = true
+						}
+						pathsOf(x.Call.Value, acc, d+1, viaCall)
+					}
+				case *ssa.Lookup:
+					pathsOf(x.X, acc, d+1, viaCall)
+					pathsOf(x.Index, acc, d+1, viaCall)
+				case *ssa.BinOp:
+					pathsOf(x.X, acc, d+1, viaCall)
+					pathsOf(x.Y, acc, d+1, viaCall)
+				case *ssa.MakeInterface:
+					pathsOf(x.X, acc, d+1, viaCall)
+				case *ssa.ChangeType:
+					pathsOf(x.X, acc, d+1, viaCall)
+				case *ssa.Convert:
+					pathsOf(x.X, acc, d+1, viaCall)
+				case *ssa.Extract:
+					pathsOf(x.Tuple, acc, d+1, viaCall)
+				case *ssa.TypeAssert:
+					pathsOf(x.X, acc, d+1, viaCall)
+				case *ssa.Phi:
+					for _, e := range x.Edges {
+						pathsOf(e, acc, d+1, viaCall)
+					}
+				case *ssa.UnOp:
+					pathsOf(x.X, acc, d+1, viaCall)
+				case *ssa.FieldAddr:
+					pathsOf(x.X, acc, d+1, viaCall)
+				case *ssa.Field:
+					pathsOf(x.X, acc, d+1, viaCall)
+				}
+			}
+			for b := range body {
+				if len(b.Instrs) == 0 {
+					continue
+				}
+				iff, ok := b.Instrs[len(b.Instrs)-1].(*ssa.If)
+				if !ok {
+					continue
+				}
+				ex, ok := iff.Cond.(*ssa.Extract)
+				if !ok || ex.Index != 1 {
+					continue
+				}
+				lk, ok := ex.Tuple.(*ssa.Lookup)
+				if !ok || !lk.CommaOk {
+					continue
+				}
+				if _, isMap := lk.X.Type().Underlying().(*types.Map); !isMap {
+					continue
+				}
+				// a set/memo: the map is local to the function or a parameter (not a field of the AST)
+				switch mx := an.Strip(lk.X).(type) {
+				case *ssa.MakeMap, *ssa.Parameter, *ssa.Phi, *ssa.FreeVar:
+				case *ssa.UnOp:
+					// a package-level memo
+					if _, isG := mx.X.(*ssa.Global); !isG {
+						if _, isA := mx.X.(*ssa.Alloc); !isA {
+							continue
+						}
+					}
+				default:
+					continue
+				}
+				hit, miss := b.Succs[0], b.Succs[1]
+				// the hit edge skips: it reaches the header without any call; the miss edge makes calls
+				callsOn := func(start *ssa.BasicBlock) []*ssa.Call {
+					var cs []*ssa.Call
+					seen := map[*ssa.BasicBlock]bool{}
+					var walk func(x *ssa.BasicBlock)
+					walk = func(x *ssa.BasicBlock) {
+						if seen[x] || x == hd || !body[x] {
+							return
+						}
+						seen[x] = true
+						for _, in := range x.Instrs {
+							if c, ok := in.(*ssa.Call); ok {
+								if _, isB := c.Call.Value.(*ssa.Builtin); !isB {
+									cs = append(cs, c)
+								}
+							}
+						}
+						for _, s := range x.Succs {
+							walk(s)
+						}
+					}
+					walk(start)
+					return cs
+				}
+				if len(callsOn(hit)) != 0 {
+					continue
+				}
+				work := callsOn(miss)
+				if len(work) == 0 {
+					continue
+				}
+				// the key must itself come from the element
+				keyPaths := map[string]bool{}
+				keyViaCall := false
+				pathsOf(lk.Index, keyPaths, 0, &keyViaCall)
+				if len(keyPaths) == 0 {
+					continue
+				}
+				workPaths := map[string]bool{}
+				for _, c := range work {
+					// an accessor of the element is not itself work: what is done with its
+					// result is, and that carries the accessor in its path
+					if c.Call.IsInvoke() && len(c.Call.Args) == 0 {
+						continue
+					}
+					if h := c.Call.StaticCallee(); h != nil && h.Signature.Recv() != nil && len(c.Call.Args) == 1 {
+						continue
+					}
+					for _, a := range c.Call.Args {
+						pathsOf(a, workPaths, 0, nil)
+					}
+					if c.Call.IsInvoke() {
+						pathsOf(c.Call.Value, workPaths, 0, nil)
+					}
+				}
+				missing := ""
+				for wp := range workPaths {
+					ok := keyViaCall && keyPaths[""]
+					for kp := range keyPaths {
+						if wp == kp || strings.HasPrefix(wp, kp+".") || kp == "" {
+							ok = true
+						}
+					}
+					if !ok && (missing == "" || wp < missing) {
+						missing = "element" + wp
+					}
+				}
+				var ks []string
+				for kp := range keyPaths {
+					ks = append(ks, "element"+kp)
+				}
+				sortStrings(ks)
+				out = append(out, memoFinding{fn: fn, pos: lk.Pos(), key: strings.Join(ks, "+"), missing: missing, covered: missing == "", hitFrom: b, hitTo: hit})
+			}
+		}
+	}
+	return out
+}
+
+func sortStrings(a []string) {
+	for i := 1; i < len(a); i++ {
+		for j := i; j > 0 && a[j] < a[j-1]; j-- {
+			a[j], a[j-1] = a[j-1], a[j]
+		}
+	}
+}
+
+// ruleMemoKey reports the memo findings of a set of packages under the given rule name.
+func ruleMemoKey(c *an.Ctx, rule string, pkgs ...string) {
+	ruleMemoKeyL(c, rule, false, pkgs...)
+}
+
+// ruleMemoKeyL with fnLevel also examines memos of recursive walks (`if r, ok := known[K(param)]; ok
+// { return r }`): for packages whose sets span several ASTs, where a bare name identifies nothing.
+func ruleMemoKeyL(c *an.Ctx, rule string, fnLevel bool, pkgs ...string) {
+	var fns []*ssa.Function
+	for _, pk := range pkgs {
+		fns = append(fns, c.P.FuncsOf(pk)...)
+	}
+	fs := memoKeyFindings(fns, fnLevel)
+	for _, f := range fs {
+		c.Check(rule, "memo-key-determines-the-skipped-work("+f.key+")@"+an.FnName(f.fn), f.pos, f.covered,
+			"a loop skips its work for an element whose key ("+f.key+") is already in a set, but the skipped calls depend on "+f.missing+", which the key does not determine: the first element with that key decides for every later one (a member type checked once per base name, a callable once per call alias, a pipeline once per bare name across files)")
+	}
+	if len(fs) == 0 {
+		c.Pass(rule, "no-skip-by-memo-in-loops", 0, "no loop in the examined packages skips work by a comma-ok lookup in a local set")
+	}
+}
+
+// K10 (C12): whether one job is re-attached never depends on what re-attaching another job
+// returned.  Fork.reattachJobs hands the split, the join and every chunk to
+// Metadata.reattachJob, which re-registers a job that was running under the previous mrp with the
+// job manager (so that its heartbeat is watched and its local reservation is taken again) and
+// answers whether the job had only been queued.  The answers are folded into one flag with
+// `x.reattachJob(jm) || flag`; written the other way round the `||` short-circuits and, once one
+// job was found queued, no later chunk is re-attached: its reservation is never re-acquired and the
+// node over-commits, or its failed heartbeat is never noticed.
+// Rule: in every function that calls a reattach function, for every branch whose condition derives
+// from the boolean result of such a call, a reattach call site reachable from one arm (without
+// coming back to the branch) is reachable from the other arm too.
+func ruleK10(c *an.Ctx) {
+	isReattach := func(in ssa.Instruction) *ssa.Call {
+		cl, ok := in.(*ssa.Call)
+		if !ok {
+			return nil
+		}
+		if h := cl.Call.StaticCallee(); h != nil && strings.HasPrefix(strings.ToLower(h.Name()), "reattachjob") {
+			return cl
+		}
+		return nil
+	}
+	n := 0
+	for _, fn := range coreFns(c) {
+		var sites []*ssa.Call
+		an.Instrs(fn, func(in ssa.Instruction) {
+			if cl := isReattach(in); cl != nil {
+				sites = append(sites, cl)
+			}
+		})
+		if len(sites) == 0 {
+			continue
+		}
+		// values derived from boolean results
+		taint := map[ssa.Value]bool{}
+		for _, s := range sites {
+			if b, ok := s.Type().Underlying().(*types.Basic); ok && b.Kind() == types.Bool {
+				taint[s] = true
+			}
+		}
+		for changed := true; changed; {
+			changed = false
+			an.Instrs(fn, func(in ssa.Instruction) {
+				v, ok := in.(ssa.Value)
+				if !ok || taint[v] {
+					return
+				}
+				switch x := in.(type) {
+				case *ssa.Phi, *ssa.BinOp, *ssa.UnOp:
+					_ = x
+					for _, op := range in.Operands(nil) {
+						if op != nil && *op != nil && taint[*op] {
+							taint[v] = true
+							changed = true
+							return
+						}
+					}
+				}
+			})
+		}
+		reach := func(from, barrier *ssa.BasicBlock) map[*ssa.BasicBlock]bool {
+			seen := map[*ssa.BasicBlock]bool{}
+			var walk func(b *ssa.BasicBlock)
+			walk = func(b *ssa.BasicBlock) {
+				if seen[b] || b == barrier {
+					return
+				}
+				seen[b] = true
+				for _, s := range b.Succs {
+					walk(s)
+				}
+			}
+			walk(from)
+			return seen
+		}
+		bad := token.NoPos
+		var badSite *ssa.Call
+		for _, b := range fn.Blocks {
+			if len(b.Instrs) == 0 {
+				continue
+			}
+			iff, ok := b.Instrs[len(b.Instrs)-1].(*ssa.If)
+			if !ok || !taint[iff.Cond] {
+				continue
+			}
+			r0, r1 := reach(b.Succs[0], b), reach(b.Succs[1], b)
+			for _, s := range sites {
+				if r0[s.Block()] != r1[s.Block()] {
+					bad = s.Pos()
+					badSite = s
+				}
+			}
+		}
+		n++
+		msg := "every job of the fork is re-attached whatever the other jobs answered"
+		if badSite != nil {
+			msg = "this re-attach call is made on one arm only of a branch on the result of an earlier re-attach call (a short-circuited `flag || x.reattachJob(..)`): once one job was found queued locally, the remaining jobs of the fork are not re-attached - no heartbeat watch, no local reservation"
+		}
+		pos := bad
+		if pos == token.NoPos {
+			pos = sites[0].Pos()
+		}
+		c.Check("K10", "reattach-independent-of-other-jobs@"+an.FnName(fn), pos, badSite == nil, msg)
+	}
+	if n == 0 {
+		c.Info("K10", "anchor(reattachJob callers)", 0, "no function of core calls a reattach function: not decided")
+	}
+}
+
+// T12 (C07): a type's outer dimension is examined first.  A TypeId carries ArrayDim (the outer array
+// nesting) and MapDim (non-zero for a typed map; MapDim-1 is the array nesting INSIDE the map), so
+// `map<int>[]` has both set and is an array.  Every dispatcher in the tree tests ArrayDim first and
+// MapDim in the else arm; one that tests MapDim first treats an array of maps as a map - makeOutArg
+// then pre-populates `{}` where the stage and the type checker expect `[]`.
+// Rule: no branch on `X.ArrayDim > 0` (or != 0) sits exclusively in the not-a-map arm of a branch on
+// `X.MapDim > 0` (or != 0) over the same X; dimDispatch returns the offending pairs.
+func dimFieldTest(v ssa.Value) (base ssa.Value, field string, positive bool, ok bool) {
+	b, isB := v.(*ssa.BinOp)
+	if !isB {
+		return nil, "", false, false
+	}
+	var fv ssa.Value
+	var cst ssa.Value
+	if _, isC := b.Y.(*ssa.Const); isC {
+		fv, cst = b.X, b.Y
+	} else if _, isC := b.X.(*ssa.Const); isC {
+		fv, cst = b.Y, b.X
+	} else {
+		return nil, "", false, false
+	}
+	k, isK := an.ConstVal(cst)
+	if !isK || k.ExactString() != "0" {
+		return nil, "", false, false
+	}
+	switch b.Op {
+	case token.GTR, token.NEQ:
+		positive = true
+		if b.Op == token.GTR && fv != b.X {
+			return nil, "", false, false
+		}
+	case token.EQL:
+		positive = false
+	case token.LSS:
+		// 0 < x
+		if fv != b.Y {
+			return nil, "", false, false
+		}
+		positive = true
+	default:
+		return nil, "", false, false
+	}
+	// the field
+	cur := fv
+	if u, isU := cur.(*ssa.UnOp); isU && u.Op == token.MUL {
+		cur = u.X
+	}
+	switch x := cur.(type) {
+	case *ssa.FieldAddr:
+		st := derefStructT(x.X.Type())
+		if st == nil {
+			return nil, "", false, false
+		}
+		return x.X, st.Field(x.Field).Name(), positive, true
+	case *ssa.Field:
+		st, isS := x.X.Type().Underlying().(*types.Struct)
+		if !isS {
+			return nil, "", false, false
+		}
+		return x.X, st.Field(x.Field).Name(), positive, true
+	}
+	return nil, "", false, false
+}
+
+func ruleT12(c *an.Ctx, rule string) {
+	var fns []*ssa.Function
+	for _, pk := range []string{"martian/syntax", pkgCore, "martian/syntax/ast_builder", "cmd/mro2go"} {
+		fns = append(fns, c.P.FuncsOf(pk)...)
+	}
+	n := 0
+	for _, fn := range fns {
+		type test struct {
+			blk      *ssa.BasicBlock
+			base     ssa.Value
+			field    string
+			positive bool
+		}
+		var tests []test
+		for _, b := range fn.Blocks {
+			if len(b.Instrs) == 0 {
+				continue
+			}
+			iff, ok := b.Instrs[len(b.Instrs)-1].(*ssa.If)
+			if !ok {
+				continue
+			}
+			base, field, pos, ok := dimFieldTest(iff.Cond)
+			if !ok || (field != "ArrayDim" && field != "MapDim") {
+				continue
+			}
+			if named, isN := derefNamed(base.Type()); !isN || named != "TypeId" {
+				continue
+			}
+			tests = append(tests, test{b, base, field, pos})
+		}
+		sameBase := func(a, b ssa.Value) bool {
+			if a == b {
+				return true
+			}
+			// two loads / field addresses of the same path
+			return accessKey(a) == accessKey(b)
+		}
+		reach := func(from, barrier *ssa.BasicBlock) map[*ssa.BasicBlock]bool {
+			seen := map[*ssa.BasicBlock]bool{}
+			var walk func(b *ssa.BasicBlock)
+			walk = func(b *ssa.BasicBlock) {
+				if seen[b] || b == barrier {
+					return
+				}
+				seen[b] = true
+				for _, s := range b.Succs {
+					walk(s)
+				}
+			}
+			walk(from)
+			return seen
+		}
+		for _, m := range tests {
+			if m.field != "MapDim" {
+				continue
+			}
+			isMap, notMap := m.blk.Succs[0], m.blk.Succs[1]
+			if !m.positive {
+				isMap, notMap = notMap, isMap
+			}
+			rm, rn := reach(isMap, m.blk), reach(notMap, m.blk)
+			for _, a := range tests {
+				if a.field != "ArrayDim" || !sameBase(a.base, m.base) {
+					continue
+				}
+				n++
+				bad := rn[a.blk] && !rm[a.blk]
+				c.Check(rule, "outer-dimension-first@"+an.FnName(fn), a.blk.Instrs[len(a.blk.Instrs)-1].(*ssa.If).Cond.Pos(), !bad,
+					"this ArrayDim test is reached only when the MapDim test of the same type has already said \"not a map\": the dispatcher looks at the inner dimension first, so an array of typed maps (both dimensions set) is treated as a map")
+			}
+		}
+	}
+	if n == 0 {
+		c.Info(rule, "anchor(functions testing both dimensions)", 0, "no function tests both ArrayDim and MapDim of one TypeId: not decided")
+	}
+}
+
+func derefNamed(t types.Type) (string, bool) {
+	if p, ok := t.Underlying().(*types.Pointer); ok {
+		t = p.Elem()
+	}
+	if n, ok := t.(*types.Named); ok {
+		return n.Obj().Name(), true
+	}
+	return "", false
+}
+
+// accessKey names a value by its root and the field path to it, so that two loads of the same
+// place compare equal.
+func accessKey(v ssa.Value) string {
+	suffix := ""
+	for i := 0; i < 16; i++ {
+		switch x := v.(type) {
+		case *ssa.UnOp:
+			if x.Op == token.MUL {
+				v = x.X
+				continue
+			}
+		case *ssa.FieldAddr:
+			if st := derefStructT(x.X.Type()); st != nil {
+				suffix = "." + st.Field(x.Field).Name() + suffix
+				v = x.X
+				continue
+			}
+		case *ssa.Field:
+			if st, ok := x.X.Type().Underlying().(*types.Struct); ok {
+				suffix = "." + st.Field(x.Field).Name() + suffix
+				v = x.X
+				continue
+			}
+		case *ssa.IndexAddr:
+			if k, ok := x.Index.(*ssa.Const); ok && k.Value != nil {
+				suffix = "[" + k.Value.ExactString() + "]" + suffix
+			} else {
+				suffix = fmt.Sprintf("[%p]", x.Index) + suffix
+			}
+			v = x.X
+			continue
+		case *ssa.TypeAssert:
+			suffix = ".(" + x.AssertedType.String() + ")" + suffix
+			v = x.X
+			continue
+		case *ssa.Extract:
+			if ta, ok := x.Tuple.(*ssa.TypeAssert); ok && x.Index == 0 {
+				suffix = ".(" + ta.AssertedType.String() + ")" + suffix
+				v = ta.X
+				continue
+			}
+		case *ssa.MakeInterface:
+			v = x.X
+			continue
+		case *ssa.ChangeInterface:
+			v = x.X
+			continue
+		case *ssa.Call:
+			// an accessor of its receiver (x.getNode()): two calls on the same place name the same place
+			if x.Call.IsInvoke() && len(x.Call.Args) == 0 {
+				suffix = "." + x.Call.Method.Name() + "()" + suffix
+				v = x.Call.Value
+				continue
+			}
+			if h := x.Call.StaticCallee(); h != nil && h.Signature.Recv() != nil && len(x.Call.Args) == 1 {
+				suffix = "." + h.Name() + "()" + suffix
+				v = x.Call.Args[0]
+				continue
+			}
+		}
+		break
+	}
+	return fmt.Sprintf("%p%s", v, suffix)
+}
+
+// P9 (C08): a padding count handed to strings.Repeat / bytes.Repeat is never negative.  Repeat
+// panics on a negative count; the formatter runs on every parse (ParseSourceBytes formats the
+// combined source) outside the parser's recover, so a negative pad on a VALID program kills mro
+// check, mro format and mrp.  The column widths of a declaration are maxima over its parameters,
+// but the id and help columns deliberately leave long entries out (`if len(id) < 35`), so
+// `idWidth-len(id)` is negative for exactly those; the type column includes every parameter.
+// Rule: the count of every Repeat call in the syntax and core packages is (a) a non-negative
+// constant, (b) clamped (`max(0, ..)`, `int(math.Max(0, ..))`), (c) a sum/product of such values
+// and lengths, or (d) a difference W - L where every origin of W - followed through parameters to
+// all callers, through results into callees, through phis - is a running maximum `max(acc, x)`
+// that is executed on every iteration of its loop (not under a condition), or zero.
+func ruleP9(c *an.Ctx) {
+	p := c.P
+	n := 0
+	var fns []*ssa.Function
+	fns = append(fns, p.FuncsOf("martian/syntax")...)
+	fns = append(fns, coreFns(c)...)
+	inScope := map[*ssa.Function]bool{}
+	for _, f := range fns {
+		inScope[f] = true
+	}
+	// unconditional: the block of v dominates every latch of the innermost loop containing it
+	unconditional := func(in ssa.Instruction) bool {
+		fn := in.Parent()
+		b := in.Block()
+		var bestHd *ssa.BasicBlock
+		var bestBody map[*ssa.BasicBlock]bool
+		for hd, body := range naturalLoops(fn) {
+			if body[b] && (bestBody == nil || len(body) < len(bestBody)) {
+				bestHd, bestBody = hd, body
+			}
+		}
+		if bestHd == nil {
+			return false
+		}
+		for _, pred := range bestHd.Preds {
+			if bestBody[pred] && !b.Dominates(pred) {
+				return false
+			}
+		}
+		return true
+	}
+	// why a width may be smaller than an element: "" if every origin is an unconditional maximum
+	var widthOK func(v ssa.Value, seen map[ssa.Value]bool, d int) string
+	widthOK = func(v ssa.Value, seen map[ssa.Value]bool, d int) string {
+		if v == nil || seen[v] {
+			return ""
+		}
+		if d > 40 {
+			return "origin of the width too deep to follow"
+		}
+		seen[v] = true
+		switch x := v.(type) {
+		case *ssa.Const:
+			return "" // the initial value of an accumulator
+		case *ssa.Phi:
+			for _, e := range x.Edges {
+				if r := widthOK(e, seen, d+1); r != "" {
+					return r
+				}
+			}
+			return ""
+		case *ssa.Parameter:
+			fn := x.Parent()
+			idx := -1
+			for i, q := range fn.Params {
+				if q == x {
+					idx = i
+				}
+			}
+			callers := p.Callers(fn)
+			if idx < 0 || len(callers) == 0 {
+				return "width parameter " + x.Name() + " of " + an.FnName(fn) + " has no visible callers"
+			}
+			for _, sites := range callers {
+				for _, s := range sites {
+					args := s.Common().Args
+					k := idx
+					if s.Common().IsInvoke() {
+						k = idx - 1
+					}
+					if k < 0 || k >= len(args) {
+						return "width argument not found at a call of " + an.FnName(fn)
+					}
+					if r := widthOK(args[k], seen, d+1); r != "" {
+						return r
+					}
+				}
+			}
+			return ""
+		case *ssa.Extract:
+			call, ok := x.Tuple.(*ssa.Call)
+			if !ok {
+				return "width taken from a tuple that is not a call result"
+			}
+			var callees []*ssa.Function
+			if h := call.Call.StaticCallee(); h != nil {
+				callees = append(callees, h)
+			} else if nd := p.CG().Nodes[call.Parent()]; nd != nil {
+				for _, e := range nd.Out {
+					if e.Site == ssa.CallInstruction(call) {
+						callees = append(callees, e.Callee.Func)
+					}
+				}
+			}
+			if len(callees) == 0 {
+				return "callee of the width computation not resolved"
+			}
+			for _, h := range callees {
+				if h.Blocks == nil {
+					return "width computed outside the program"
+				}
+				var res string
+				an.Instrs(h, func(in ssa.Instruction) {
+					if ret, ok := in.(*ssa.Return); ok && x.Index < len(ret.Results) && res == "" {
+						res = widthOK(ret.Results[x.Index], seen, d+1)
+					}
+				})
+				if res != "" {
+					return res
+				}
+			}
+			return ""
+		case *ssa.Call:
+			if isMaxCall(x) {
+				if !unconditional(x) {
+					return "the running maximum at " + p.Pos(x.Pos()) + " is updated under a condition: elements that fail it may be wider than the column"
+				}
+				// the accumulator operand carries earlier maxima
+				for _, a := range x.Call.Args {
+					if _, isPhi := a.(*ssa.Phi); isPhi {
+						if r := widthOK(a, seen, d+1); r != "" {
+							return r
+						}
+					} else if ex, isEx := a.(*ssa.Extract); isEx {
+						if r := widthOK(ex, seen, d+1); r != "" {
+							return r
+						}
+					}
+				}
+				return ""
+			}
+			return fmt.Sprintf("width computed by a call that is not a running maximum (%s in %s; %T)", x.String(), an.FnName(x.Parent()), x.Call.Value)
+		}
+		return "width of unknown origin (" + v.String() + ")"
+	}
+	nnSeen := map[ssa.Value]bool{}
+	var nonNeg func(v ssa.Value, d int) string
+	nonNeg = func(v ssa.Value, d int) string {
+		if d > 12 {
+			return "count too deep to follow"
+		}
+		if _, isPhi := v.(*ssa.Phi); isPhi {
+			if nnSeen[v] {
+				return ""
+			}
+			nnSeen[v] = true
+		}
+		switch x := v.(type) {
+		case *ssa.Const:
+			if x.Value != nil && x.Value.Kind() == constant.Int && constant.Sign(x.Value) >= 0 {
+				return ""
+			}
+			return "negative constant count"
+		case *ssa.Convert:
+			return nonNeg(x.X, d+1)
+		case *ssa.Call:
+			if b, ok := x.Call.Value.(*ssa.Builtin); ok {
+				switch b.Name() {
+				case "len", "cap":
+					return ""
+				case "max":
+					for _, a := range x.Call.Args {
+						if nonNeg(a, d+1) == "" {
+							return ""
+						}
+					}
+					return "max() without a non-negative operand"
+				case "min":
+					for _, a := range x.Call.Args {
+						if r := nonNeg(a, d+1); r != "" {
+							return r
+						}
+					}
+					return ""
+				}
+			}
+			if _, isB := x.Call.Value.(*ssa.Builtin); !isB && isMaxCall(x) {
+				for _, a := range x.Call.Args {
+					if nonNeg(a, d+1) == "" {
+						return ""
+					}
+				}
+				return "max() without a non-negative operand"
+			}
+			if h := x.Call.StaticCallee(); h != nil && h.Pkg != nil && h.Pkg.Pkg.Path() == "math" && h.Name() == "Max" {
+				for _, a := range x.Call.Args {
+					if k, ok := an.ConstVal(a); ok && constant.Sign(k) >= 0 {
+						return ""
+					}
+				}
+				return "math.Max without a non-negative constant operand"
+			}
+			return "count computed by a call"
+		case *ssa.BinOp:
+			switch x.Op {
+			case token.ADD, token.MUL:
+				if r := nonNeg(x.X, d+1); r != "" {
+					return r
+				}
+				return nonNeg(x.Y, d+1)
+			case token.SUB:
+				// guarded by a comparison of the two operands?
+				if g, _ := an.GuardedBy(x, func(r an.Rel) bool {
+					return (r.Op == token.GEQ || r.Op == token.GTR) && r.X == x.X && r.Y == x.Y ||
+						(r.Op == token.LEQ || r.Op == token.LSS) && r.X == x.Y && r.Y == x.X
+				}); g {
+					return ""
+				}
+				return widthOK(x.X, map[ssa.Value]bool{}, 0)
+			}
+		case *ssa.Phi:
+			for _, e := range x.Edges {
+				if r := nonNeg(e, d+1); r != "" {
+					return r
+				}
+			}
+			return ""
+		}
+		return "count of unknown origin"
+	}
+	perFn := map[*ssa.Function]int{}
+	for _, fn := range fns {
+		an.Instrs(fn, func(in ssa.Instruction) {
+			cl, ok := in.(*ssa.Call)
+			if !ok {
+				return
+			}
+			h := cl.Call.StaticCallee()
+			if h == nil || h.Pkg == nil || h.Name() != "Repeat" || (h.Pkg.Pkg.Path() != "strings" && h.Pkg.Pkg.Path() != "bytes") {
+				return
+			}
+			n++
+			perFn[fn]++
+			key := "repeat-count-non-negative@" + an.FnName(fn)
+			if perFn[fn] > 1 {
+				key += fmt.Sprintf("#%d", perFn[fn])
+			}
+			why := nonNeg(cl.Call.Args[1], 0)
+			c.Check("P9", key, cl.Pos(), why == "",
+				"the count of this Repeat call can be negative, and Repeat panics on a negative count (the formatter runs on every parse, outside the parser's recover): "+why)
+		})
+	}
+	if n == 0 {
+		c.Info("P9", "anchor(Repeat calls)", 0, "no strings.Repeat / bytes.Repeat call in the syntax and core packages")
+	}
+}
+
+// isMaxCall: the builtin max, or a module function called max that returns one of its parameters.
+func isMaxCall(x *ssa.Call) bool {
+	if b, ok := x.Call.Value.(*ssa.Builtin); ok {
+		return b.Name() == "max"
+	}
+	h := x.Call.StaticCallee()
+	if h == nil || h.Blocks == nil || !strings.EqualFold(h.Name(), "max") {
+		return false
+	}
+	ok := true
+	isParam := func(v ssa.Value) bool {
+		for _, q := range h.Params {
+			if q == v {
+				return true
+			}
+		}
+		return false
+	}
+	an.Instrs(h, func(in ssa.Instruction) {
+		if ret, isR := in.(*ssa.Return); isR {
+			for _, r := range ret.Results {
+				if isParam(r) {
+					continue
+				}
+				if ph, isPhi := r.(*ssa.Phi); isPhi {
+					for _, e := range ph.Edges {
+						if !isParam(e) {
+							ok = false
+						}
+					}
+					continue
+				}
+				ok = false
+			}
+		}
+	})
+	return ok
+}
+
+// Q13 (C09): a node's comments are cleared only after they were taken.  Comments reach the formatter
+// through AstNode.Comments and AstNode.scopeComments; the tree moves them in two places (an
+// include's scope comments to the new first include, a container's comments to its first
+// sub-node).  A move is "load the old value and put it somewhere, then store nil"; clearing on a path
+// where the old value was not read (the container has no sub-node to receive them) loses the
+// comment: `mro format` drops text the user wrote.
+// Rule: every store of nil to a Comments / scopeComments field is preceded, on every path from the
+// function's entry, by a load of the same field of the same node.
+func ruleQ13(c *an.Ctx) {
+	n := 0
+	for _, fn := range c.P.FuncsOf("martian/syntax") {
+		an.Instrs(fn, func(in ssa.Instruction) {
+			st, ok := in.(*ssa.Store)
+			if !ok {
+				return
+			}
+			fa, ok := st.Addr.(*ssa.FieldAddr)
+			if !ok {
+				return
+			}
+			sT := derefStructT(fa.X.Type())
+			if sT == nil {
+				return
+			}
+			fname := sT.Field(fa.Field).Name()
+			if fname != "Comments" && fname != "scopeComments" {
+				return
+			}
+			if named, _ := derefNamed(fa.X.Type()); named != "AstNode" {
+				return
+			}
+			k, isC := st.Val.(*ssa.Const)
+			if !isC || !k.IsNil() {
+				return
+			}
+			n++
+			key := accessKey(fa)
+			w := an.Query{Fn: fn, Target: func(x ssa.Instruction) bool { return x == ssa.Instruction(st) },
+				Barrier: func(x ssa.Instruction) bool {
+					u, ok := x.(*ssa.UnOp)
+					if !ok || u.Op != token.MUL {
+						return false
+					}
+					f2, ok := u.X.(*ssa.FieldAddr)
+					return ok && accessKey(f2) == key
+				}}.Find()
+			c.Check("Q13", "comments-cleared-only-after-taken("+fname+")@"+an.FnName(fn), st.Pos(), w == nil,
+				"this store clears a node's "+fname+" on a path where the old value was never read: the comments are not moved anywhere, the formatter no longer prints them")
+		})
+	}
+	if n == 0 {
+		c.Pass("Q13", "no-comment-field-is-cleared", 0, "no function of the syntax package stores nil to AstNode.Comments or AstNode.scopeComments")
+	}
+}
+
+// J9 (C11): a qualified name is matched as a prefix only up to a component boundary.  Node.find maps
+// the name in a journal file to the node it belongs to; names are dotted paths whose components
+// the user chooses.  `strings.HasPrefix(name, node's name)` without the separator sends the
+// journal entry of ID.P.STEP10 into the subtree of ID.P.STEP1: it is not found there, the entry is
+// consumed and the completion is noticed only by the next full scan (or, for a pipeline named like a
+// prefix of its sibling, attributed to nobody).
+// Rule: wherever the core package tests strings.HasPrefix(s, p) with p derived from a node's
+// qualified name, p ends with "." - or the branch that follows also compares s[len(p)] with '.'
+// or the lengths.
+func ruleJ9(c *an.Ctx) {
+	n := 0
+	for _, fn := range coreFns(c) {
+		an.Instrs(fn, func(in ssa.Instruction) {
+			cl, ok := in.(*ssa.Call)
+			if !ok {
+				return
+			}
+			f := cl.Call.StaticCallee()
+			if f == nil || f.Pkg == nil || f.Pkg.Pkg.Path() != "strings" || f.Name() != "HasPrefix" {
+				return
+			}
+			p := cl.Call.Args[1]
+			if !derivesFromNodeName(p, 0) {
+				return
+			}
+			n++
+			ok2 := endsWithDot(p, 0)
+			if !ok2 {
+				// a boundary test in the same function: s[len(p)] == '.'
+				an.Instrs(fn, func(x ssa.Instruction) {
+					b, isB := x.(*ssa.BinOp)
+					if !isB || (b.Op != token.EQL && b.Op != token.NEQ) {
+						return
+					}
+					for _, pair := range [][2]ssa.Value{{b.X, b.Y}, {b.Y, b.X}} {
+						k, isK := an.ConstVal(pair[1])
+						if !isK || k.Kind() != constant.Int {
+							continue
+						}
+						if v, exact := constant.Int64Val(k); !exact || v != '.' {
+							continue
+						}
+						if ix, isIx := pair[0].(*ssa.Index); isIx && accessKey(ix.X) == accessKey(cl.Call.Args[0]) {
+							ok2 = true
+						}
+					}
+				})
+			}
+			c.Check("J9", "name-prefix-at-component-boundary@"+an.FnName(fn), cl.Pos(), ok2,
+				"a name is matched against a node's qualified name as a bare string prefix: STEP1 is a prefix of STEP10, so the journal entry (or lookup) for one call is routed to its sibling; terminate the prefix with '.' or test the byte after it")
+		})
+	}
+	if n == 0 {
+		c.Pass("J9", "no-prefix-match-on-qualified-names", 0, "no strings.HasPrefix in the core package takes a prefix derived from a node's qualified name")
+	}
+}
+
+// H5 (C18): shellSafeQuote hands a value back unquoted only if it consists of characters the shell
+// never interprets.  Every path through the function returns what appendShellSafeQuote built; a
+// fast path that returns the argument itself is acceptable only under a guard whose accepted
+// language can be read off the code: a MatchString on a package-level regexp compiled from a
+// constant of the form ^[class]+$ (or *), whose class - computed here with regexp/syntax from the
+// constant - contains nothing but [A-Za-z0-9_@%+=:,./-].  (Round 8: a fast path with the class
+// [\w@%+-=:,./], where `+-=` is the range '+'..'=' and lets ; and < through unquoted.)
+func ruleH5(c *an.Ctx) {
+	p := c.P
+	quote := p.Func(pkgCore, "appendShellSafeQuote")
+	ssq := p.Func(pkgCore, "shellSafeQuote")
+	if quote == nil || ssq == nil {
+		c.Info("H5", "anchor(shellSafeQuote)", 0, "not found: not decided")
+		return
+	}
+	throughQuote := func(v ssa.Value) bool {
+		seen := map[ssa.Value]bool{}
+		var rec func(v ssa.Value, d int) bool
+		rec = func(v ssa.Value, d int) bool {
+			if v == nil || seen[v] || d > 10 {
+				return false
+			}
+			seen[v] = true
+			switch x := v.(type) {
+			case *ssa.Call:
+				if x.Call.StaticCallee() == quote {
+					return true
+				}
+				return false
+			case *ssa.Convert:
+				return rec(x.X, d+1)
+			case *ssa.ChangeType:
+				return rec(x.X, d+1)
+			case *ssa.Slice:
+				return rec(x.X, d+1)
+			case *ssa.Phi:
+				for _, e := range x.Edges {
+					if !rec(e, d+1) {
+						return false
+					}
+				}
+				return len(x.Edges) > 0
+			}
+			return false
+		}
+		return rec(v, 0)
+	}
+	safe := func(r rune) bool {
+		return r >= 'a' && r <= 'z' || r >= 'A' && r <= 'Z' || r >= '0' && r <= '9' || strings.ContainsRune("_@%+=:,./-", r)
+	}
+	// the pattern a regexp global is compiled from
+	patternOf := func(g *ssa.Global) (string, bool) {
+		var pat string
+		found := false
+		for _, m := range g.Pkg.Members {
+			fn, ok := m.(*ssa.Function)
+			if !ok || fn.Name() != "init" {
+				continue
+			}
+			an.Instrs(fn, func(in ssa.Instruction) {
+				st, ok := in.(*ssa.Store)
+				if !ok || st.Addr != ssa.Value(g) {
+					return
+				}
+				cl, ok := st.Val.(*ssa.Call)
+				if !ok || cl.Call.StaticCallee() == nil || cl.Call.StaticCallee().Name() != "MustCompile" {
+					return
+				}
+				if k, isK := an.ConstVal(cl.Call.Args[0]); isK && k.Kind() == constant.String {
+					pat, found = constant.StringVal(k), true
+				}
+			})
+		}
+		return pat, found
+	}
+	n := 0
+	an.Instrs(ssq, func(in ssa.Instruction) {
+		ret, ok := in.(*ssa.Return)
+		if !ok || len(ret.Results) == 0 {
+			return
+		}
+		n++
+		key := fmt.Sprintf("returns-a-quoted-value@shellSafeQuote#%d", n)
+		if throughQuote(ret.Results[0]) {
+			c.Pass("H5", key, ret.Pos(), "the returned string is built by appendShellSafeQuote")
+			return
+		}
+		// an unquoted return: which guard?
+		why := "the value is returned without passing through appendShellSafeQuote and no recognisable guard restricts it"
+		var guardPat string
+		g, _ := an.GuardedBy(ret, func(r an.Rel) bool {
+			if r.Op != token.ILLEGAL || !r.Truth {
+				return false
+			}
+			cl, ok := r.X.(*ssa.Call)
+			if !ok || cl.Call.StaticCallee() == nil || cl.Call.StaticCallee().Name() != "MatchString" {
+				return false
+			}
+			ld, ok := cl.Call.Args[0].(*ssa.UnOp)
+			if !ok {
+				return false
+			}
+			gl, ok := ld.X.(*ssa.Global)
+			if !ok {
+				return false
+			}
+			if cl.Call.Args[1] != ret.Results[0] {
+				return false
+			}
+			pat, ok := patternOf(gl)
+			if !ok {
+				return false
+			}
+			guardPat = pat
+			return true
+		})
+		okRet := false
+		if g {
+			bad, err := unsafeRunesOfWordPattern(guardPat, safe)
+			switch {
+			case err != "":
+				why = "the unquoted return is guarded by the pattern " + guardPat + ", " + err
+			case bad != "":
+				why = "the unquoted return is guarded by the pattern " + guardPat + ", which also accepts " + bad + ": these reach the job script unquoted and are interpreted by the shell"
+			default:
+				okRet = true
+				why = "unquoted only for words matching " + guardPat + ", all of whose characters are inert in sh"
+			}
+		}
+		c.Check("H5", key, ret.Pos(), okRet, why)
+	})
+	if n == 0 {
+		c.Info("H5", "anchor(returns of shellSafeQuote)", 0, "no return found: not decided")
+	}
+}
+
+// F14 (C06): the first observation that a job is not running stands until it is consumed.
+// failNotRunning records WHEN the job manager first reported the job as unknown
+// (notRunningSince); checkHeartbeat fails the job only once a refresh of the metadata that began
+// AFTER that time has still not found a completion.  The query runs periodically: if each
+// negative answer overwrote the timestamp, the timestamp would always be newer than the last
+// refresh whenever refreshes and queries alternate, and a job killed by the cluster would be
+// waited on for ever (or for the much longer heartbeat timeout).
+// Rule: every store of a non-zero value to Metadata.notRunningSince is dominated by the true edge
+// of IsZero() on that same field.
+func ruleF14(c *an.Ctx) {
+	n := 0
+	for _, fn := range coreFns(c) {
+		an.Instrs(fn, func(in ssa.Instruction) {
+			st, ok := in.(*ssa.Store)
+			if !ok {
+				return
+			}
+			fa, ok := st.Addr.(*ssa.FieldAddr)
+			if !ok {
+				return
+			}
+			sT := derefStructT(fa.X.Type())
+			if sT == nil || sT.Field(fa.Field).Name() != "notRunningSince" {
+				return
+			}
+			if _, isC := st.Val.(*ssa.Const); isC {
+				return // cleared
+			}
+			n++
+			key := accessKey(fa)
+			g, _ := an.GuardedBy(st, func(r an.Rel) bool {
+				if r.Op != token.ILLEGAL || !r.Truth {
+					return false
+				}
+				cl, ok := r.X.(*ssa.Call)
+				if !ok || cl.Call.StaticCallee() == nil || cl.Call.StaticCallee().Name() != "IsZero" || len(cl.Call.Args) == 0 {
+					return false
+				}
+				return accessKey(cl.Call.Args[0]) == key
+			})
+			c.Check("F14", "first-not-running-observation-stands@"+an.FnName(fn), st.Pos(), g,
+				"notRunningSince is overwritten although an earlier observation may be pending: with periodic queries the timestamp is always newer than the last metadata refresh, so checkHeartbeat never sees `notRunningSince.Before(lastRefresh)` and a job the cluster killed is not failed")
+		})
+	}
+	if n == 0 {
+		c.Info("F14", "anchor(stores to notRunningSince)", 0, "no store of a time to Metadata.notRunningSince: not decided")
+	}
+}
+
+// O7 (C02): two references are the same reference only if they name the same call.  A RefExp is
+// (Kind, Id, OutputId): the call (or `self`), and the output path within it.  Wherever two
+// references are compared for identity - to de-duplicate the list of upstream references a node
+// depends on - comparing the output path without the call id merges STEP_A.out with STEP_B.out,
+// the second dependency disappears from the graph and the consumer starts before STEP_B is done.
+// Rule: a function that compares the OutputId of two references for equality compares their Id too.
+func ruleO7(c *an.Ctx) {
+	n := 0
+	var fns []*ssa.Function
+	fns = append(fns, c.P.FuncsOf("martian/syntax")...)
+	fns = append(fns, coreFns(c)...)
+	refField := func(v ssa.Value) (base string, field string, ok bool) {
+		u, isU := v.(*ssa.UnOp)
+		if !isU || u.Op != token.MUL {
+			return "", "", false
+		}
+		fa, isF := u.X.(*ssa.FieldAddr)
+		if !isF {
+			return "", "", false
+		}
+		if named, _ := derefNamed(fa.X.Type()); named != "RefExp" {
+			return "", "", false
+		}
+		st := derefStructT(fa.X.Type())
+		return accessKey(fa.X), st.Field(fa.Field).Name(), true
+	}
+	for _, fn := range fns {
+		type pair struct{ a, b string }
+		cmp := map[string]map[pair]token.Pos{}
+		an.Instrs(fn, func(in ssa.Instruction) {
+			b, ok := in.(*ssa.BinOp)
+			if !ok || (b.Op != token.EQL && b.Op != token.NEQ) {
+				return
+			}
+			bx, fx, ok1 := refField(b.X)
+			by, fy, ok2 := refField(b.Y)
+			if !ok1 || !ok2 || fx != fy || bx == by {
+				return
+			}
+			if bx > by {
+				bx, by = by, bx
+			}
+			if cmp[fx] == nil {
+				cmp[fx] = map[pair]token.Pos{}
+			}
+			cmp[fx][pair{bx, by}] = b.Pos()
+		})
+		for pr, pos := range cmp["OutputId"] {
+			n++
+			_, hasId := cmp["Id"][pr]
+			c.Check("O7", "reference-identity-includes-the-call@"+an.FnName(fn), pos, hasId,
+				"two references are compared by their output path (OutputId) but not by the call they refer to (Id): STEP_A.out and STEP_B.out count as one reference, the dependency on the second call is dropped and its consumer can start before it has finished")
+		}
+	}
+	if n == 0 {
+		c.Pass("O7", "no-reference-comparison-by-output-only", 0, "no function compares the OutputId of two references")
+	}
+}
+
+// I9 (C16): the code point of a \uXXXX escape is replaced only if it is a UTF-16 surrogate.  The MRO
+// string decoder encodes the 16-bit value of the escape as it is.  A decoder that pairs
+// surrogates (as JSON writers that emit ASCII only do) may substitute the combined code point -
+// but only for values in D800..DFFF.  A looser classification (the mask test r&0xD800 == 0xD800
+// also holds for U+D900.., U+F800..U+FFFF: private-use and CJK compatibility characters, the BOM,
+// U+FFFD) sends ordinary characters into the pairing code, which turns them into U+FFFD: the text
+// of a string argument changes between MRO and invocation JSON.
+// Rule: in the string decoder, a value handed to utf8.EncodeRune / AppendRune is the arithmetic
+// of the escape's hex digits; any other value (the result of a pairing helper) arrives only over
+// edges guarded by utf16.IsSurrogate(r), by r&0xF800 == 0xD800 or by both bounds of D800..DFFF.
+func ruleI9(c *an.Ctx) {
+	p := c.P
+	root := p.Func("martian/syntax", "unquoteBytes")
+	if root == nil {
+		c.Info("I9", "anchor(unquoteBytes)", 0, "not found: not decided")
+		return
+	}
+	var pureHex func(v ssa.Value, d int) bool
+	pureHex = func(v ssa.Value, d int) bool {
+		if v == nil || d > 8 {
+			return false
+		}
+		switch x := v.(type) {
+		case *ssa.Const:
+			return true
+		case *ssa.Convert:
+			return pureHex(x.X, d+1)
+		case *ssa.BinOp:
+			switch x.Op {
+			case token.ADD, token.SHL, token.OR, token.MUL:
+				return pureHex(x.X, d+1) && pureHex(x.Y, d+1)
+			}
+		case *ssa.Call:
+			h := x.Call.StaticCallee()
+			if h == nil || h.Blocks == nil {
+				return false
+			}
+			if strings.HasPrefix(h.Name(), "parseHex") {
+				return true
+			}
+		}
+		return false
+	}
+	surrogateGuard := func(r an.Rel) (lower, upper, full bool) {
+		k := func(v ssa.Value) (int64, bool) {
+			cv, ok := an.ConstVal(v)
+			if !ok || cv.Kind() != constant.Int {
+				return 0, false
+			}
+			n, exact := constant.Int64Val(cv)
+			return n, exact
+		}
+		if r.Op == token.ILLEGAL {
+			if cl, ok := r.X.(*ssa.Call); ok && r.Truth {
+				if h := cl.Call.StaticCallee(); h != nil && h.Pkg != nil && h.Pkg.Pkg.Path() == "unicode/utf16" && h.Name() == "IsSurrogate" {
+					return false, false, true
+				}
+			}
+			return
+		}
+		if r.Op == token.EQL {
+			for _, pr := range [][2]ssa.Value{{r.X, r.Y}, {r.Y, r.X}} {
+				if b, ok := pr[0].(*ssa.BinOp); ok && b.Op == token.AND {
+					val, okV := k(pr[1])
+					m1, ok1 := k(b.X)
+					m2, ok2 := k(b.Y)
+					if okV && val == 0xD800 && (ok1 && m1 == 0xF800 || ok2 && m2 == 0xF800) {
+						return false, false, true
+					}
+				}
+			}
+			return
+		}
+		rr := r
+		if _, isK := k(rr.X); isK {
+			rr = rr.Flip()
+		}
+		if n, ok := k(rr.Y); ok {
+			switch {
+			case rr.Op == token.GEQ && n == 0xD800, rr.Op == token.GTR && n == 0xD7FF:
+				lower = true
+			case rr.Op == token.LEQ && n == 0xDFFF, rr.Op == token.LSS && n == 0xE000:
+				upper = true
+			}
+		}
+		return
+	}
+	fam := map[*ssa.Function]bool{root: true}
+	an.Instrs(root, func(in ssa.Instruction) {
+		if cl, ok := in.(*ssa.Call); ok {
+			if h := cl.Call.StaticCallee(); h != nil && h.Blocks != nil && h.Pkg == root.Pkg {
+				fam[h] = true
+			}
+		}
+	})
+	n := 0
+	var famNames []string
+	byName := map[string]*ssa.Function{}
+	for fn := range fam {
+		famNames = append(famNames, an.FnName(fn))
+		byName[an.FnName(fn)] = fn
+	}
+	sortStrings(famNames)
+	for _, name := range famNames {
+		fn := byName[name]
+		k := 0
+		an.Instrs(fn, func(in ssa.Instruction) {
+			cl, ok := in.(*ssa.Call)
+			if !ok {
+				return
+			}
+			h := cl.Call.StaticCallee()
+			if h == nil || h.Pkg == nil || h.Pkg.Pkg.Path() != "unicode/utf8" || (h.Name() != "EncodeRune" && h.Name() != "AppendRune") {
+				return
+			}
+			arg := cl.Call.Args[1]
+			n++
+			k++
+			key := fmt.Sprintf("escape-value-encoded-as-written@%s#%d", an.FnName(fn), k)
+			if pureHex(arg, 0) {
+				c.Pass("I9", key, cl.Pos(), "the encoded rune is the arithmetic of the escape's hex digits")
+				return
+			}
+			ph, isPhi := arg.(*ssa.Phi)
+			if !isPhi {
+				if _, isParam := arg.(*ssa.Parameter); isParam {
+					c.Pass("I9", key, cl.Pos(), "a helper encoding its parameter")
+					return
+				}
+				c.Fail("I9", key, cl.Pos(), "the rune handed to the encoder is neither the escape's value nor a choice between it and a replacement: not decided, reported")
+				return
+			}
+			ok2 := true
+			for i, e := range ph.Edges {
+				if _, isC := e.(*ssa.Const); !isC && pureHex(e, 0) {
+					continue
+				}
+				pred := ph.Block().Preds[i]
+				lo, _ := an.GuardedBy(pred.Instrs[0], func(r an.Rel) bool { l, _, f := surrogateGuard(r); return l || f })
+				hi, _ := an.GuardedBy(pred.Instrs[0], func(r an.Rel) bool { _, u, f := surrogateGuard(r); return u || f })
+				if !lo || !hi {
+					ok2 = false
+				}
+			}
+			c.Check("I9", key, cl.Pos(), ok2,
+				"the escape's code point is replaced by another value on a path that is not restricted to UTF-16 surrogates (utf16.IsSurrogate, r&0xF800 == 0xD800, or both bounds of D800..DFFF): characters outside that range are rewritten, a string argument changes between MRO text and JSON")
+		})
+	}
+	if n == 0 {
+		c.Info("I9", "anchor(EncodeRune in the string decoder)", 0, "no utf8.EncodeRune / AppendRune call in unquoteBytes and its helpers: not decided")
+	}
 }
